@@ -53,6 +53,9 @@ class SimError(Exception):
         # lets redress.default_classifier (used by no-retry policies) see the same class
         self.status = STATUS_OF.get(cls)
 
+    def __reduce__(self):   # copyable / picklable like a well-behaved exception
+        return (SimError, (self.label, self.cls, self.retry_after))
+
 
 class Val:
     """A successful result (identity matters, so never interned)."""
